@@ -111,3 +111,103 @@ Example tr_BSWL_range_ex : tr_BSWL_range [ex_ep 3 1; ex_ep 700 1; ex_ep 5 1] = N
 Proof. vm_compute. reflexivity. Qed.
 Example tr_BSWL_range_ex_hyp : Forall (fun e => int32 (go_endpoint_Endpoint_Weight e)) [ex_ep 3 1; ex_ep 700 1; ex_ep 5 1].
 Proof. repeat constructor; cbn; lia. Qed.
+
+(* ---------- the scaling loop (tr_BSWL_scale) ---------- *)
+(* the Go values the loop builds from the model's scaled list [(index, scaled weight)] *)
+Definition pair_of (p : nat * Z) : go_selector_pair :=
+  {| go_selector_pair_first := snd p; go_selector_pair_second := Z.of_nat (fst p) |}.
+Definition entry_of (p : nat * Z) : Z * Z := (Z.of_nat (fst p), snd p).
+
+(* the second part of Selectors.bswl_gen: scale_all and what the model derives from it - the indexes with a
+   non-positive scaled weight (they start the cycle), the positive ones (weightToId / idToWeight) and their sum *)
+Definition model_scale (l : list ep) (range total0 maxw : Z)
+  : ctl (Z * list go_selector_pair * list (Z * Z) * list Z) (list Z) :=
+  match scale_all range maxw (indexed 0 l) with
+  | Selectors.Panic _ => GoSem.Panic
+  | Ok scaled =>
+      let zeros := map fst (filter (fun p => snd p <=? 0) scaled) in
+      let pos := filter (fun p => 0 <? snd p) scaled in
+      Next (total0 + fold_left Z.add (map snd pos) 0, map pair_of pos, map entry_of pos, map Z.of_nat zeros)
+  end.
+
+Lemma fold_add_shift l : forall a, fold_left Z.add l a = a + fold_left Z.add l 0.
+Proof. induction l as [|x l IH]; intros a; cbn; [lia|]. rewrite IH, (IH x). lia. Qed.
+
+Lemma map_set_fresh (m : list (Z * Z)) k v : Forall (fun p => fst p < k) m -> go_map_set m k v = m ++ [(k, v)].
+Proof.
+  induction m as [|[k' v'] m IH]; intros H; [reflexivity|]. inversion H as [|? ? Hk Hm]; subst. cbn [fst] in Hk.
+  cbn [go_map_set app]. replace (k' =? k) with false by lia. rewrite IH by exact Hm. reflexivity.
+Qed.
+
+(* reading the map built by the loop is the model's lookup [wof] *)
+Lemma map_get_wof (pos : list (nat * Z)) (i : nat) : go_map_get (map entry_of pos) (Z.of_nat i) 0 = wof pos i.
+Proof.
+  unfold wof. induction pos as [|[j q] pos IH]; [reflexivity|]. cbn [map entry_of fst snd go_map_get find].
+  destruct (Nat.eqb j i) eqn:E.
+  - apply Nat.eqb_eq in E. subst. rewrite Z.eqb_refl. reflexivity.
+  - apply Nat.eqb_neq in E. replace (Z.of_nat j =? Z.of_nat i) with false by lia. exact IH.
+Qed.
+
+Theorem tr_BSWL_scale_equiv : forall (l : list go_endpoint_Endpoint) (range total0 maxw : Z),
+  Forall (fun e => int32 (go_endpoint_Endpoint_Weight e) /\ go_endpoint_Endpoint_Weight e <= maxw) l ->
+  0 < maxw <= 2147483647 -> 0 <= range <= 100 -> 0 <= total0 <= 1 -> Z.of_nat (length l) <= 2147483647 ->
+  tr_BSWL_scale l range total0 maxw = model_scale (map m_of l) range total0 maxw.
+Proof.
+  intros l range total0 maxw Hl Hm Hr Ht Hlen. unfold tr_BSWL_scale, model_scale.
+  replace (0 <=? go_len l) with true by (unfold go_len; lia). cbn [andb Z.leb Z.compare].
+  change (go_make 0 0) with (@nil Z).
+  match goal with |- context [go_range _ ?f _] => set (body := f) end.
+  assert (L : forall l i tw wid idw cache,
+            Forall (fun e => int32 (go_endpoint_Endpoint_Weight e) /\ go_endpoint_Endpoint_Weight e <= maxw) l ->
+            Z.of_nat i + Z.of_nat (length l) <= 2147483647 -> 0 <= tw <= 1 + 100 * Z.of_nat i ->
+            Forall (fun p => fst p < Z.of_nat i) idw ->
+            go_range_from (Z.of_nat i) l body (tw, wid, idw, cache) =
+            match scale_all range maxw (indexed i (map m_of l)) with
+            | Selectors.Panic _ => GoSem.Panic
+            | Ok scaled =>
+                let zeros := map fst (filter (fun p => snd p <=? 0) scaled) in
+                let pos := filter (fun p => 0 <? snd p) scaled in
+                Next (tw + fold_left Z.add (map snd pos) 0, wid ++ map pair_of pos, idw ++ map entry_of pos, cache ++ map Z.of_nat zeros)
+            end).
+  { clear l Hl Hlen. induction l as [|e l IH]; intros i tw wid idw cache Hl Hlen Htw Hk.
+    - cbn. rewrite !app_nil_r, Z.add_0_r. reflexivity.
+    - inversion Hl as [|? ? [He Hle] Hl']; subst. unfold int32 in He.
+      cbn [go_range_from map indexed scale_all]. unfold body at 1. cbn [m_of wgt].
+      set (w := go_endpoint_Endpoint_Weight e) in *.
+      unfold go_div. replace (maxw =? 0) with false by lia. cbn [negb].
+      assert (Hq : -214748364800 <= Z.quot (w * range) maxw <= 100).
+      { split.
+        - assert (- (214748364800) <= w * range) by nia.
+          destruct (Z.le_gt_cases 0 (w * range)) as [P|P]; [pose proof (Z.quot_pos (w * range) maxw P ltac:(lia)); lia|].
+          pose proof (Z.quot_opp_l (w * range) maxw ltac:(lia)) as O.
+          assert (Z.quot (- (w * range)) maxw <= - (w * range)) by (apply Z.quot_le_upper_bound; nia).
+          lia.
+        - apply Z.quot_le_upper_bound; nia. }
+      rewrite (wrapS64_id (w * range)) by nia. rewrite (wrapS64_id (Z.quot (w * range) maxw)) by lia.
+      set (q := Z.quot (w * range) maxw) in *.
+      replace (Z.of_nat i + 1) with (Z.of_nat (S i)) by lia.
+      cbn [Datatypes.length] in Hlen. rewrite Nat2Z.inj_succ in Hlen.
+      destruct (0 <? q) eqn:E; cbn [bindc].
+      + rewrite (wrapS64_id (tw + q)) by lia. rewrite map_set_fresh by exact Hk.
+        rewrite IH; [|exact Hl'|lia|lia|].
+        * destruct (scale_all range maxw (indexed (S i) (map m_of l))) as [scaled|]; [|reflexivity].
+          cbn [filter snd fst]. rewrite E. replace (q <=? 0) with false by lia.
+          cbn [map snd fst fold_left Z.add]. rewrite (fold_add_shift _ (0 + q)).
+          rewrite <- !app_assoc. cbn [app].
+          match goal with |- Next (?a, _, _, _) = Next (?b, _, _, _) => replace b with a by lia end. reflexivity.
+        * apply Forall_app. split; [eapply Forall_impl; [|exact Hk]; cbn; intros; lia|].
+          constructor; [cbn; lia|constructor].
+      + rewrite IH; [|exact Hl'|lia|lia|].
+        * destruct (scale_all range maxw (indexed (S i) (map m_of l))) as [scaled|]; [|reflexivity].
+          cbn [filter snd fst]. rewrite E. replace (q <=? 0) with true by lia.
+          cbn [map snd fst]. rewrite <- !app_assoc. reflexivity.
+        * eapply Forall_impl; [|exact Hk]; cbn; intros; lia. }
+  unfold go_range. change 0 with (Z.of_nat 0) at 1. rewrite L; [|exact Hl|lia|lia|constructor].
+  destruct (scale_all range maxw (indexed 0 (map m_of l))); reflexivity.
+Qed.
+
+(* under these hypotheses the model's loop never panics (the divisor is positive) *)
+Example tr_BSWL_scale_ex :
+  tr_BSWL_scale [ex_ep 3 1; ex_ep 700 1; ex_ep (-5) 1] 100 0 700
+  = Next (100, [pair_of (1%nat, 100)], [(1, 100)], [0; 2]).
+Proof. vm_compute. reflexivity. Qed.
